@@ -127,7 +127,7 @@ func newPackage(program *loader.Program, pkgInfo *loader.PackageInfo, plugins []
 	for _, plugin := range plugins {
 		generators[plugin.Name()] = plugin.New(typesmaps[plugin.Name()], printer, deps)
 	}
-	pkg := &pkg{pkgInfo, plugins, generators, printer, nil, fullpath}
+	pkg := &pkg{pkgInfo, plugins, generators, typesmaps, printer, nil, fullpath}
 	for _, fileInfo := range fileInfos {
 
 		changed := false
@@ -193,6 +193,7 @@ type pkg struct {
 	info       *loader.PackageInfo
 	plugins    []Plugin
 	generators map[string]Generator
+	typesmaps  map[string]TypesMap
 	printer    Printer
 	undefined  []*ast.CallExpr
 	fullpath   string
@@ -204,14 +205,18 @@ func (pkg *pkg) Add(call *call) (string, error) {
 			continue
 		}
 		generator := pkg.generators[p.Name()]
-		for i, arg := range call.Args {
-			if basic, ok := arg.(*types.Basic); ok && basic.Kind() == types.UntypedNil {
-				return "", fmt.Errorf("Add Error: %s: %s, argument %d is an untyped nil, which has no type to generate a function for", p.Name(), call.Name, i+1)
-			}
-		}
 		name, err := generator.Add(call.Name, call.Args)
 		if err != nil {
 			return "", fmt.Errorf("Add Error: %s: %v", p.Name(), err)
+		}
+		// An untyped nil argument is fine where the plugin takes its type from another argument, as in deriveMax(list, nil),
+		// but a function cannot be generated for a parameter of type untyped nil.
+		if tm, ok := pkg.typesmaps[p.Name()].(*typesMap); ok {
+			for i, typ := range tm.funcToTyps[name] {
+				if basic, ok := typ.(*types.Basic); ok && basic.Kind() == types.UntypedNil {
+					return "", fmt.Errorf("Add Error: %s: %s, argument %d is an untyped nil, which has no type to generate a function for", p.Name(), call.Name, i+1)
+				}
+			}
 		}
 		return name, nil
 	}
